@@ -466,6 +466,11 @@ def long_lines(r, seed, tier):
             add(b, "end-unterminated")
             add(b, "nomarker-then-markers")
             add(b, "start")
+    # the size ladder: one line of 4 MiB (thorough: also 16 MiB) with the marker
+    # late in it (a per-line cap or piece size "large enough for any real
+    # patch" shows one rung above it and nowhere below)
+    for b in ([4194304, 16777216] if thorough else [4194304]):
+        add(b, "late", pre=seed % 5)
     # very many short lines
     for i, n in enumerate([300, 1100, 4200, 9000, 33000, 70000] + ([140000, 300000] if thorough else [])):
         out.append(("patch-many", p_many(r, n, (i + seed) % 3)))
@@ -549,6 +554,8 @@ def inputs_for(seed, tier):
             content(["rand", "ascii", "utf8"][(i + seed) % 3], n)
         for i, n in enumerate(HUGE):
             content(["rand", "ascii"][(i + seed) % 2], n)
+        # the size ladder for plain streams: a little more than 4 MiB
+        content("rand", 4194304 + 4099)
         out.extend(long_lines(r, seed, tier))
         return out
 
@@ -584,6 +591,8 @@ def inputs_for(seed, tier):
             for cls in ("rand", "ascii", "utf8"):
                 content(cls, n)
         content("rand", 1048577)
+        content("rand", 4194304 + 4099)
+        content("ascii", 16777216 + 4099)
         out.extend(long_lines(r, seed, tier))
         return out
 
